@@ -51,20 +51,20 @@ theorem mfront_parseBlock (s0 : BP α) :
     cases e with
     | none =>
       refine ⟨[], ?_, by simp⟩
-      rw [withRecover_none (s2 := s1)]
+      rw [withRecover_none_ma (s2 := s1)]
       · simpa using hother { s1 with cur := s0.cur } hm.1
       · simp only [StateT.bind, hme]; rfl
     | some ev =>
       obtain ⟨k, v, rfl⟩ := hret ev rfl
       cases hc : (isConfigKey s1.cs k && s1.ext.has Gen.EXT_MODES)
       · refine ⟨[], ?_, by simp⟩
-        rw [withRecover_none (s2 := s1)]
+        rw [withRecover_none_ma (s2 := s1)]
         · simpa using hother { s1 with cur := s0.cur } hm.1
         · simp only [StateT.bind, hme, hasExt, get, getThe, MonadStateOf.get, StateT.get, pure, StateT.pure, bind,
             hc, Bool.or_false]
           rfl
       · refine ⟨[.metadata k v], ?_, ?_⟩
-        · rw [withRecover_some (s2 := s1) (a := .metadata k v)]
+        · rw [withRecover_some_ma (s2 := s1) (a := .metadata k v)]
           · show metaOf (s1.evs.push (.metadata k v)) = _
             rw [metaOf_push, hm.1]; rfl
           · simp only [StateT.bind, hme, hasExt, get, getThe, MonadStateOf.get, StateT.get, pure, StateT.pure, bind,
